@@ -200,6 +200,13 @@ def build_cases(tier: str, seed: int) -> tuple[list[dict[str, Any]], dict[str, A
                 add("slow-ecu", ids, E, depth, [], th, slow=3.0)
     info["slow-ecu"] = ("accepted session changes are announced with ResponsePending and completed 3 s later "
                         "(virtual time; within the ECU's P2* of 5 s)")
+    # positive session-change answers with other sessionParameterRecords than gallia's own server sends
+    for ids, E in reset_graphs:
+        for rec in ("", "0032", "003201f4", "003201f4aabb", "003201f4" + "5a" * 12):
+            add("param-record", ids, E, 2, [], False, param_record=rec)
+    info["param-record"] = ("the ECU's positive DiagnosticSessionControl answers carry an empty / 2 / 4 / 6 / 16 byte "
+                            "sessionParameterRecord (manufacturer specific in ISO 14229-1:2006, timing values plus "
+                            "vendor bytes in the field)")
     # a re-scan into a database that already holds the session transitions of an earlier, deeper scan
     for ids, E in reset_graphs:
         for depth, skip in ((1, []), (2, [2]), (1, [ids[1]])):
